@@ -172,6 +172,11 @@ def check_projects(report: Report, tier: str) -> dict:
             for port in ports:
                 for libs in lib_lists:
                     one(board, port, libs, sources[0]) if (tier == "thorough" or port in ports[:3] or libs is None) else None
+        # histories: regenerate into the SAME project directory (same length / shorter / longer / identical sources)
+        variants = ["pinMode(12, OUTPUT); delay(500);\n", "pinMode(13, OUTPUT); delay(250);\n", "pinMode(13, OUTPUT); delay(25);\n", "é" * 10 + "\n", "è" * 10 + "\n", "ab" * 10 + "\n", ""]
+        for first, second in itertools.product(variants, repeat=2):
+            one("uno", "COM3", None, first)
+            one("uno", "COM4", ["Servo"], second, reuse=True)
         for source in sources:
             for libs in (None, [], ["Servo", "Servo", "", "LiquidCrystal"]):
                 one("uno", "COM3", libs, source)
